@@ -279,14 +279,14 @@ example :
 
 /-! ## identifier prefix and the completion placeholder -/
 
-theorem length_takeWhile_le' {α} (p : α → Bool) (l : List α) : (l.takeWhile p).length ≤ l.length := by
+theorem length_takeWhile_le_len {α} (p : α → Bool) (l : List α) : (l.takeWhile p).length ≤ l.length := by
   induction l with
   | nil => simp
   | cons a l ih => simp only [List.takeWhile]; split <;> simp <;> omega
 
 theorem identRun_le (t : Text) (off : Nat) : identRun t off ≤ off := by
   unfold identRun
-  have h1 := length_takeWhile_le' isIdentByte (t.take off).reverse
+  have h1 := length_takeWhile_le_len isIdentByte (t.take off).reverse
   have h2 : (t.take off).reverse.length ≤ off := by simp [List.length_take]; omega
   omega
 
